@@ -1078,6 +1078,55 @@ func fieldLoad(v ssa.Value) (base ssa.Value, name string, ok bool) {
 	return nil, "", false
 }
 
+// optionsFieldAddr: fa addresses a field of the command options (ergo.GlobalOptions), directly or inside one of its
+// option groups (opts.Output.JSON, opts.Store.StartDir): the leaf field's name.
+func optionsFieldAddr(fa *ssa.FieldAddr) (string, bool) {
+	x := fa.X
+	for d := 0; d < 4; d++ {
+		if namedTypeName(x.Type()) == "ergo.GlobalOptions" {
+			return fieldName(fa.X.Type(), fa.Field), true
+		}
+		up, ok := x.(*ssa.FieldAddr)
+		if !ok {
+			return "", false
+		}
+		x = up.X
+	}
+	return "", false
+}
+
+// optionsFieldLoad: v reads a field of the command options (see optionsFieldAddr); value-typed selections included.
+func optionsFieldLoad(v ssa.Value) (string, bool) {
+	v = strip(v)
+	switch x := v.(type) {
+	case *ssa.UnOp:
+		if fa, ok := x.X.(*ssa.FieldAddr); ok && x.Op == token.MUL {
+			return optionsFieldAddr(fa)
+		}
+	case *ssa.Field:
+		var b ssa.Value = x.X
+		for d := 0; d < 4; d++ {
+			if namedTypeName(b.Type()) == "ergo.GlobalOptions" {
+				return fieldName(x.X.Type(), x.Field), true
+			}
+			switch up := b.(type) {
+			case *ssa.Field:
+				b = up.X
+			case *ssa.UnOp:
+				if fa, ok := up.X.(*ssa.FieldAddr); ok && up.Op == token.MUL {
+					if _, ok := optionsFieldAddr(fa); ok {
+						return fieldName(x.X.Type(), x.Field), true
+					}
+				}
+				return "", false
+			default:
+				return "", false
+			}
+		}
+	}
+	return "", false
+}
+
 func envBase(b ssa.Value) ssa.Value {
 	if len(curEnv) > 0 {
 		return resolveEnv(b, curEnv)
